@@ -98,6 +98,21 @@ def add_formatter_observations(crate, project, rng):
                                          "rnodes": [("var", "v", name, args)], "flavours": ["td_string", "td_display", "td", "t", "t_string", "tu_display"], "depth": 0, "formatter": name})
 
 
+LIT_KEYS = [("zz_lit_whole", "float", 2.0), ("zz_lit_exp", "float", 6.02e23), ("zz_lit_small", "float", 1.5e-7), ("zz_lit_frac", "float", -2.25),
+            ("zz_lit_int", "int", -7), ("zz_lit_uint", "int", 18446744073709551615), ("zz_lit_bool", "bool", True)]
+
+
+def add_literal_keys(project):
+    """Bare number / boolean keys of the same literal kind in every locale (whole, exponent-sized, tiny and fractional floats, a negative
+    and the largest integer): the const accessor, the string, display and view flavours each print them through another function."""
+    cfg = project["cfg"]
+    ns = (cfg.get("namespaces") or [None])[0]
+    for (n, loc), tree in project["data"].items():
+        if n == ns:
+            for name, ty, v in LIT_KEYS:
+                tree.append([name, {"k": "lit", "ty": ty, "v": v}])
+
+
 def add_observations(crate, project, ptable, rng, max_keys=40):
     cfg = project["cfg"]
     locales = gen.effective_locales(cfg)
@@ -294,6 +309,7 @@ def run(tier, seed, replay=None):
     for p in projs:
         add_plural_keys(p, rng)
         add_formatter_keys(p)
+        add_literal_keys(p)
     ptable = workload.plural_table_for(projs)
     crates = []
     for i, p in enumerate(projs):
